@@ -34,6 +34,7 @@ def run(chk):
     decode(chk, prog)
     clamps(chk, prog)
     zxaychip(chk, prog)
+    port_wrappers(chk, prog)
     chk.rule("T-TABLE/tick", "per-tick summaries of the tone / noise / envelope generators and of the mixer (DAC index tabulated over every channel input); tick rate f_clk/8 from the resampler's step and loop structure")
     generators(chk, prog)
     mixer(chk, prog)
@@ -43,6 +44,40 @@ def run(chk):
     chk.rule("T-INV/float", "interval analysis of AymPrecise::process: phase accumulator in [0,1) at every interpolation use and at return, for every step up to clock/(8000*64)")
     floatinv.phase_accumulator(chk, prog)
     return chk.finish(EXPL)
+
+
+def port_wrappers(chk, prog):
+    """The controller's three AY port leaves (reached from the decode chain C07 judges) forward to the chip
+    unconditionally: whatever the sound settings or the machine state, a data write reaches ZXAyChip::write once with
+    the byte written, a register select reaches select_reg once with the byte, a data read returns ZXAyChip::read."""
+    names = cc.Names(prog)
+    chk.rule("T-PAIR/ports", "ZXController::write_ay_port / select_ay_reg / read_ay_port forward to the chip exactly once on every path, with the byte unchanged")
+    chip = dict((n, prog.fn_path("rustzx_core", "ZXAyChip::" + n)) for n in ("write", "select_reg", "read"))
+    for wrapper, target, has_arg in (("write_ay_port", "write", True), ("select_ay_reg", "select_reg", True), ("read_ay_port", "read", False)):
+        key = "T-PAIR/ZXController::%s" % wrapper
+        try:
+            fn = prog.fn(names.ctl(wrapper))
+        except Exception as e:
+            chk.undecided_(key + "/anchor", "%s" % e)
+            continue
+        for m in names.machine_variants():
+            w = Walker(prog)
+            w.opaque_paths |= set(chip.values())
+            w.effect_hook = lambda w_, st, path, a, d, wh: EffectResult(tm.sym("CHIPREAD", 8), havoc=False) if path == chip["read"] else EffectResult(None, havoc=False)
+            st = cc.controller_state(w, prog, names, m)
+            v = tm.sym("byte", 8)
+            rs = w.run(fn, [Ref(cc.CTL, (), True)] + ([v] if has_arg else []), genv=cc.GENV, state=st)
+            if not rs or any(r.outcome != "return" for r in rs):
+                chk.fail(key + "/paths", "%s: %s" % (wrapper, [(r.outcome, r.detail) for r in rs][:2]))
+                continue
+            for r in rs:
+                calls = [e for e in r.trace if e.path in chip.values()]
+                ok = len(calls) == 1 and calls[0].path == chip[target] and ((not has_arg) or calls[0].args[1] is v) and (has_arg or r.ret is tm.sym("CHIPREAD", 8))
+                chk.check(ok, key + "/" + m, "%s does not forward to ZXAyChip::%s exactly once with the byte unchanged on the path %s: calls %s, result %s" % (
+                    wrapper, target, [tm.show(c[1])[:60] for c in r.pc if c[0] in ("eq", "ne") and isinstance(c[1], T)][-2:],
+                    [(e.path.split("::")[-1], e.args[1:]) for e in calls], r.ret))
+                chk.count("port-wrapper-paths")
+    chk.floor("port-wrapper-paths", 6)
 
 
 def static(prog, name):
